@@ -21,7 +21,10 @@ import (
 	"math/rand"
 	"os"
 	"runtime"
+	"runtime/debug"
+	"runtime/pprof"
 	"sort"
+	"strings"
 	"sync"
 	"time"
 
@@ -33,6 +36,8 @@ var (
 	caselog *evid.CaseLog
 	base    = time.Now() // the one monotonic clock
 	ncpu    = runtime.NumCPU()
+
+	checkSem = make(chan struct{}, runtime.NumCPU())
 )
 
 var sizes = []int{-5, 0, 1, 63, 64, 65, 100, 1023, 1024, 1100, 4096}
@@ -50,9 +55,10 @@ type sizeStat struct {
 var (
 	statMu    sync.Mutex
 	sizeStats = map[int]*sizeStat{}
-	lruStat   = sizeStat{}
+	lruStats  = map[string]*sizeStat{}
 	hitsByPat = map[string]int{}
 	storesPat = map[string]int{}
+	b2bPat    = map[string][2]int{}
 )
 
 func sstat(size int) *sizeStat {
@@ -60,6 +66,16 @@ func sstat(size int) *sizeStat {
 	if s == nil {
 		s = &sizeStat{Bound: capBound(size)}
 		sizeStats[size] = s
+	}
+	return s
+}
+
+func lstat(shards, max int) *sizeStat {
+	k := fmt.Sprintf("sharded_lru_%dx%d", shards, max)
+	s := lruStats[k]
+	if s == nil {
+		s = &sizeStat{Bound: shards * max}
+		lruStats[k] = s
 	}
 	return s
 }
@@ -91,6 +107,17 @@ func genHistories(rng *rand.Rand, n int, workload string) []histDesc {
 			// more live keys in one shard than any per-shard maximum of the small sizes
 			d.Keys = 24 + rng.Intn(25)
 			d.Pattern = []string{"same-shard", "same-sum", "high"}[rng.Intn(3)]
+		}
+		if d.Keys < d.Goroutines/2 {
+			d.Keys = d.Goroutines / 2 // bounds how many goroutines sit on one key at a time (checker cost is exponential in that)
+		}
+		// keep the per-key partitions small (the checker is super-linear in their
+		// length): many short histories rather than long ones
+		if m := 500 * d.Keys / d.Goroutines; d.Ops > m {
+			d.Ops = m
+			if d.Ops < 100 {
+				d.Ops = 100
+			}
 		}
 		if workload == "lru" {
 			d.Size = 0
@@ -175,8 +202,40 @@ func judgeHistory(h *history) (found bool) {
 		ks = append(ks, k)
 	}
 	sort.Ints(ks)
-	for _, k := range ks {
-		v := checkKey(parts[k], checkerTimeout)
+	verdicts := make([]keyVerdict, len(ks))
+	var cwg sync.WaitGroup
+	for i, k := range ks {
+		cwg.Add(1)
+		go func(i, k int) { // partitions of all histories of a batch share the cores
+			defer cwg.Done()
+			checkSem <- struct{}{}
+			t0 := time.Now()
+			verdicts[i] = checkKey(parts[k], checkerTimeout)
+			us := time.Since(t0).Microseconds()
+			<-checkSem
+			rep.Count("checker_cpu_ms_total", us/1000)
+			rep.Max("checker_ms_slowest_partition", us/1000)
+			if us > 1_500_000 && os.Getenv("C11_DEBUG") != "" {
+				nf, nm, nh, ns := 0, 0, 0, 0
+				for _, o := range parts[k] {
+					switch {
+					case o.Kind == opFlush:
+						nf++
+					case o.Kind == opGet && o.Hit:
+						nh++
+					case o.Kind == opGet:
+						nm++
+					case o.Kind == opStore:
+						ns++
+					}
+				}
+				fmt.Printf("SLOW %dms ops=%d flush=%d miss=%d hit=%d store=%d %+v\n", us/1000, len(parts[k]), nf, nm, nh, ns, d)
+			}
+		}(i, k)
+	}
+	cwg.Wait()
+	for i, k := range ks {
+		v := verdicts[i]
 		rep.Count("porcupine_partitions", 1)
 		rep.Count("porcupine_"+v.Result, 1)
 		rep.Count("partition_ops_total", int64(len(parts[k])))
@@ -188,6 +247,9 @@ func judgeHistory(h *history) (found bool) {
 			}
 			return map[string]any{"desc": d, "key_index": k, "key_sum": keys[k].S, "verdict": v, "key_history_by_call_time": ops,
 				"clock": "ns since harness start (one monotonic clock); a Get hit is legal iff its value is the current one in some linearisation and exp_ns >= call_ns"}
+		}
+		if v.Class != "" || v.Result == "illegal" {
+			rep.Count("violating_partitions", 1)
 		}
 		switch {
 		case v.Class != "" && v.Result == "ok":
@@ -202,7 +264,7 @@ func judgeHistory(h *history) (found bool) {
 			what := fmt.Sprintf("%s history #%d (size %d, %s keys, GOMAXPROCS %d): the %d operations on key %d have no linearisation in the may-forget model (longest partial linearisation: %d ops)",
 				d.Workload, d.N, d.Size, d.Pattern, d.Procs, len(parts[k]), k, len(v.Linear))
 			rep.Violation(prefix+"get-not-linearizable", what, witness())
-		case v.Result == "unknown":
+		case v.Result == "unknown" && v.Class == "":
 			rep.Inconclusive("porcupine timed out (%s) on %s history #%d key %d (%d ops)", checkerTimeout, d.Workload, d.N, k, len(parts[k]))
 		}
 	}
@@ -265,7 +327,9 @@ func judgeHistory(h *history) (found bool) {
 	statMu.Lock()
 	hitsByPat[d.Workload+"/"+d.Pattern] += st.hits
 	storesPat[d.Workload+"/"+d.Pattern] += st.stores
-	ss := &lruStat
+	bb := b2bPat[d.Workload+"/"+d.Pattern]
+	b2bPat[d.Workload+"/"+d.Pattern] = [2]int{bb[0] + st.b2b, bb[1] + st.b2bHit}
+	ss := lstat(d.Shards, d.MaxPerShard)
 	if d.Workload == "cache" {
 		ss = sstat(d.Size)
 	}
@@ -340,7 +404,7 @@ func judgeCapacity(r capResult) (found bool) {
 	}
 	rep.SetAdd("config_classes", fmt.Sprintf("%s/size%d/%s/%s/lru%dx%d", d.Workload, d.Size, d.Dist, d.Expiry, d.Shards, d.MaxPerShard))
 	statMu.Lock()
-	ss := &lruStat
+	ss := lstat(d.Shards, d.MaxPerShard)
 	if d.Workload == "capacity" {
 		ss = sstat(d.Size)
 	}
@@ -362,38 +426,81 @@ func judgeCapacity(r capResult) (found bool) {
 	return found
 }
 
+// raceLogBytes returns the size of the race detector's log for this process
+// (GORACE log_path=<p> writes <p>.<pid>); -1 if it cannot be known.
+func raceLogBytes() int64 {
+	for _, f := range strings.Fields(os.Getenv("GORACE")) {
+		if p, ok := strings.CutPrefix(f, "log_path="); ok {
+			fi, err := os.Stat(fmt.Sprintf("%s.%d", p, os.Getpid()))
+			if err != nil {
+				return 0
+			}
+			return fi.Size()
+		}
+	}
+	return -1
+}
+
+// Every racy access costs the detector milliseconds (it restores both stacks
+// before it de-duplicates), so a tree with a race in a hot path would turn the
+// run into hours. Once the detector has reported during a workload - which the
+// driver already counts as a violation - the rest of that workload is cut
+// short and the run is marked as not fully explored.
+func cutShort(workload string, logBefore int64, done, total int) bool {
+	if logBefore < 0 || os.Getenv("C11_NO_CUT") != "" {
+		return false
+	}
+	if now := raceLogBytes(); now > logBefore && done < total {
+		rep.Extra("cut_short_"+workload, fmt.Sprintf("race detector reported during this workload (log grew %d -> %d bytes); stopped after %d of %d cases", logBefore, now, done, total))
+		rep.Count("cases_skipped_after_race_report", int64(total-done))
+		return true
+	}
+	return false
+}
+
 // execute runs the histories one after the other (each owns the machine and
 // its GOMAXPROCS setting) and judges them in parallel, batch by batch.
 func execute(hs []histDesc) {
-	const batch = 48
-	for lo := 0; lo < len(hs); lo += batch {
+	const batch = 128
+	if len(hs) == 0 {
+		return
+	}
+	logBefore := raceLogBytes()
+	cut := false
+	for lo := 0; lo < len(hs) && !cut; lo += batch {
 		hi := lo + batch
 		if hi > len(hs) {
 			hi = len(hs)
 		}
 		recs := make([]*history, 0, hi-lo)
 		t0 := time.Now()
-		for _, d := range hs[lo:hi] {
+		for i, d := range hs[lo:hi] {
 			caselog.Log(d)
 			runtime.GOMAXPROCS(d.Procs)
 			recs = append(recs, runHistory(d))
+			if lo+i+1 >= 12 && cutShort(hs[0].Workload+"_histories", logBefore, lo+i+1, len(hs)) {
+				cut = true
+				break
+			}
 		}
 		runtime.GOMAXPROCS(ncpu)
 		rep.Count("wall_ms_executing_histories", time.Since(t0).Milliseconds())
 		t0 = time.Now()
 		var wg sync.WaitGroup
-		sem := make(chan struct{}, ncpu)
 		for _, h := range recs {
 			wg.Add(1)
-			sem <- struct{}{}
 			go func(h *history) {
 				defer wg.Done()
-				defer func() { <-sem }()
 				judgeHistory(h)
 			}(h)
 		}
 		wg.Wait()
 		rep.Count("wall_ms_checking_histories", time.Since(t0).Milliseconds())
+		if n := rep.Get("violating_partitions"); n >= 20 && hi < len(hs) && os.Getenv("C11_NO_CUT") == "" {
+			// decided: every further illegal partition costs the checker an exhaustive search
+			rep.Extra("stopped_"+hs[0].Workload+"_histories", fmt.Sprintf("%d violating key partitions after %d of %d histories; rest not executed", n, hi, len(hs)))
+			break
+		}
 	}
 }
 
@@ -401,12 +508,20 @@ func main() {
 	rep = evid.New("C11", "exploration")
 	caselog = evid.OpenCaseLog()
 	runtime.GOMAXPROCS(ncpu)
+	debug.SetGCPercent(400) // the offline checker allocates heavily; under -race the collector is the bottleneck
 	rep.SetRule("case = one short concurrent history (8-16 goroutines x 100-300 seeded ops Get/Store/Flush/Len plus a Len sampler and a concurrent Range, sweeper every 0.2-5 ms, expiries within +-5 ms of now, 4-48 keys whose Sum() collides per shard / fully / near 2^64, sizes -5,0,1,63,64,65,100,1023,1024,1100,4096, GOMAXPROCS 1/2/4/16) against pkg/cache or the sharded LRU, or one capacity-pressure run (2-3x more live keys than max(size,1024)); a history is non-trivial if it has at least one hit, one miss on a key with a completed store, and one lookup overlapping a store/flush of the same key by another goroutine; a capacity case if more distinct keys were offered than the bound; distinct = per-key sequence of observed outcomes (hit/miss/store/flush order) x configuration")
 	rep.Assume("call/return stamps and expiry times come from the same process-wide monotonic clock that time.Now() carries; a lookup is judged against its call stamp (taken before the call), so every outcome consistent with some instant inside the call is accepted")
 	rep.Assume("Flush (and LRU Clean) are copied into every key partition as a per-key delete somewhere inside their call interval: no cross-key atomicity is demanded")
 	rep.Assume("the model lets the store forget any value at any time (eviction, sweeps): only wrong hits are violations, never misses")
 	rep.Assume("memory races are decided by the Go race detector (driver post-processes its log); this program only produces the concurrent accesses")
 
+	if pf := os.Getenv("C11_PROF"); pf != "" {
+		if f, err := os.Create(pf); err == nil {
+			_ = pprof.StartCPUProfile(f)
+			defer pprof.StopCPUProfile()
+			stopProf = pprof.StopCPUProfile
+		}
+	}
 	if err := checkerSelfTest(); err != nil {
 		rep.Inconclusive("checker self-test failed (harness bug): %v", err)
 		rep.Finish()
@@ -419,15 +534,23 @@ func main() {
 	}
 
 	rng := rand.New(rand.NewSource(rep.Seed))
-	nCache := rep.Pick(700, 9000)
-	nLRU := rep.Pick(150, 1500)
+	nCache := rep.Pick(400, 4000)
+	nLRU := rep.Pick(100, 800)
 	hs := genHistories(rng, nCache, "cache")
 	ls := genHistories(rng, nLRU, "lru")
 	cs := genCapacity(rng, rep.Thorough())
 
 	// capacity first: it is cheap and schedule-independent
 	t0 := time.Now()
-	for _, d := range cs {
+	logBefore := raceLogBytes()
+	capCut := false
+	for i, d := range cs {
+		if capCut && d.Dist != "uniform" {
+			continue
+		}
+		if !capCut && cutShort("capacity", logBefore, i, len(cs)) {
+			capCut = true // keep only the uniform-distribution cases from here on
+		}
 		caselog.Log(d)
 		runtime.GOMAXPROCS(d.Procs)
 		r := runCapacity(d)
@@ -448,13 +571,26 @@ func main() {
 	for _, s := range szs {
 		st[fmt.Sprintf("size_%d", s)] = sizeStats[s]
 	}
-	st["sharded_lru"] = lruStat
+	for k, v := range lruStats {
+		st[k] = v
+	}
 	rep.Extra("len_by_configured_size", st)
 	rep.Extra("hits_by_key_pattern", hitsByPat)
+	b2bOut := map[string]string{}
+	for p, bb := range b2bPat {
+		b2bOut[p] = fmt.Sprintf("%d of %d", bb[1], bb[0])
+		if bb[0] >= 200 && bb[1]*20 < bb[0] {
+			rep.Inconclusive("key pattern %s: only %d of %d lookups issued right after the goroutine's own store hit - the store hardly ever returns anything, exactness is not exercised", p, bb[1], bb[0])
+		}
+	}
+	rep.Extra("hits_of_lookups_right_after_own_store_by_key_pattern", b2bOut)
 	for p, n := range storesPat {
 		if n > 0 && hitsByPat[p] == 0 {
 			rep.Inconclusive("no lookup ever hit for key pattern %s (%d stores): exactness was not exercised there", p, n)
 		}
+	}
+	if rep.Get("cases_skipped_after_race_report") > 0 {
+		rep.Inconclusive("%d cases were skipped after the race detector reported (see cut_short_*): exploration incomplete; set C11_NO_CUT=1 to run everything regardless of cost", rep.Get("cases_skipped_after_race_report"))
 	}
 	if rep.Get("gets_overlapping_store_or_flush_of_same_key") == 0 || rep.Get("get_hits") == 0 || rep.Get("flushes") == 0 {
 		rep.Inconclusive("no concurrent lookup/mutation pairs or no hits observed")
@@ -468,8 +604,11 @@ func main() {
 	if rep.Get("porcupine_ok")+rep.Get("porcupine_illegal") == 0 {
 		rep.Inconclusive("no partition was decided by the checker")
 	}
+	stopProf()
 	rep.Finish()
 }
+
+var stopProf = func() {}
 
 func replay() {
 	var c struct {
